@@ -1,10 +1,12 @@
 package props
 
 import (
+	"bytes"
 	"context"
 	"fmt"
 	"sort"
 	"strings"
+	"time"
 
 	"github.com/indexsupply/shovel/eth"
 	"github.com/indexsupply/shovel/jrpc2"
@@ -507,6 +509,61 @@ func runC07(e *core.Env) error {
 				}
 			}
 		}
+	}
+	// ---- an ACCEPTED reply attaches every log to the block and transaction it names - also when the block
+	// comes from the cache and already carries logs another request attached (two filters on one
+	// source; the later request's log has the LOWER index within the transaction). Expected sets are
+	// computed from the node's chain.
+	{
+		addrA, addrB := simnode.Derive("c07A")[:20], simnode.Derive("c07B")[:20]
+		ch := simnode.NewChain(5, simnode.GenOpts{Salt: 91 + e.Seed%3, MakeTx: func(salt, num, idx uint64, tx *simnode.Tx) {
+			simnode.DefaultMakeTx(salt, num, idx, tx)
+			tx.Logs = nil
+			for j := uint64(0); j < 4; j++ {
+				a := addrA
+				if j%2 == 1 {
+					a = addrB
+				}
+				tx.Logs = append(tx.Logs, simnode.Log{Idx: 4*idx + j, Addr: a, Topics: [][]byte{simnode.Derive("t", salt, num, idx, j)}, Data: simnode.Derive("d", salt, num, idx, j)})
+			}
+		}})
+		nd := simnode.NewNode(ch)
+		for _, order := range [][][]byte{{addrA, addrB}, {addrB, addrA}, {addrB, addrA, addrB}} {
+			for _, fields := range [][]string{{"block_time", "log_idx"}, {"tx_input", "log_idx"}, {"log_idx"}} {
+				cl := jrpc2.New(nd.URL()).WithMaxReads(10).WithPollDuration(time.Hour)
+				verdict := "ok"
+				for _, a := range order {
+					flt := glf.New(fields, []string{fmt.Sprintf("0x%x", a)}, nil)
+					bs, err := cl.Get(ctx, nd.URL(), flt, 1, 3)
+					if err != nil {
+						verdict = "unexpected error: " + err.Error()
+						break
+					}
+					got := map[string]bool{}
+					for i := range bs {
+						for j := range bs[i].Txs {
+							for _, l := range bs[i].Txs[j].Logs {
+								if bytes.Equal(l.Address, a) {
+									got[fmt.Sprintf("%d/%d/%d", bs[i].Num(), uint64(bs[i].Txs[j].Idx), uint64(l.Idx))] = true
+								}
+							}
+						}
+					}
+					for n := 1; n <= 3; n++ {
+						for _, tx := range ch.Blocks[n].Txs {
+							for _, l := range tx.Logs {
+								k := fmt.Sprintf("%d/%d/%d", n, tx.Idx, l.Idx)
+								if bytes.Equal(l.Addr, a) && !got[k] && verdict == "ok" {
+									verdict = fmt.Sprintf("accepted reply for address %x: log %s (block/tx/index) is not attached", a, k)
+								}
+							}
+						}
+					}
+				}
+				e.Add(core.Case{Impl: verdict, Spec: "ok", Key: fmt.Sprintf("c07-attach-all %x %v", order, fields), Nontrivial: true, Tags: []string{"attach-all-logs-on-cached-blocks"}})
+			}
+		}
+		nd.Close()
 	}
 	// Latest / Hash on null, error, failure
 	for _, c := range []int{0, 1, 10, 11, 12} {
